@@ -179,3 +179,26 @@ Theorem C15_source_sum_reward_mean_is_sum_of_means :
     = SourceLinear.vsum (size ts) [seq acc1 expm regf Ss Slast alpha ts [seq gen_reward_get OpsR nn nl r s | s <- sts] | r <- rs].
 Proof. move=> expm es regf n Ss Slast alpha ts; exact: source_sum_reward_mean. Qed.
 Print Assumptions C15_source_sum_reward_mean_is_sum_of_means.
+
+(* the covariance that accumulate(k=2, center=True, permute=True) computes (model of the translated accumulate) is symmetric and
+   bilinear in the reward vectors, on any demography *)
+From PG Require Import analysis.SourceCovariance.
+Theorem C15_source_covariance_symmetric :
+  forall (expm : seq (seq R) -> seq (seq R)) (Ss : seq (QArith_base.Q * seq (seq R))) (Slast : seq (seq R)) (alpha : seq R) (lam : R)
+         (t : QArith_base.Q) (a b : seq R),
+    cov_t expm Ss Slast alpha lam t a b = cov_t expm Ss Slast alpha lam t b a.
+Proof. exact: cov_t_sym. Qed.
+Print Assumptions C15_source_covariance_symmetric.
+
+Theorem C15_source_covariance_bilinear :
+  forall (expm : seq (seq R) -> seq (seq R)),
+    (forall n A, wf n n A -> wf n n (expm A) /\ mx_of n n (expm A) = mexp (mx_of n n A)) ->
+  forall (n : nat) (Ss : seq (QArith_base.Q * seq (seq R))) (Slast : seq (seq R)) (alpha : seq R) (lam : R) (t : QArith_base.Q),
+    lam <> 0 ->
+    List.Forall (fun x : QArith_base.Q * seq (seq R) => wf n n x.2) Ss -> wf n n Slast ->
+    epochs_wf (seq (seq R)) Q0 Ss -> QArith_base.Qle Q0 t ->
+  forall a1 a2 b (c1 c2 : R), size a1 = n -> size a2 = n -> size b = n ->
+    cov_t expm Ss Slast alpha lam t (Matrix.vadd OpsR (Matrix.vscale OpsR c1 a1) (Matrix.vscale OpsR c2 a2)) b
+    = c1 * cov_t expm Ss Slast alpha lam t a1 b + c2 * cov_t expm Ss Slast alpha lam t a2 b.
+Proof. move=> expm es n Ss Slast alpha lam t; exact: cov_t_lin_l. Qed.
+Print Assumptions C15_source_covariance_bilinear.
